@@ -42,13 +42,15 @@ VARIABLES q,             \* handshake queue (sequence of "version"/"verack")
           nmsgs,
           out,           \* commands sent by the last step (bag as sequence, sorted by the harness)
           sinks,         \* sink calls made by the last step
+          alt,           \* the last step handed a complete headers message to the alternate header handler
+                         \* (if one is installed: NodeManager.SetHeaderHandler) - output only
           lastIn         \* message handled by the last step ("" for goroutine steps)
-vars == <<q, hs, hsComplete, ready, verified, closed, deaf, desync, protoconfs, breq, seenTx, nmsgs, out, sinks, lastIn>>
+vars == <<q, hs, hsComplete, ready, verified, closed, deaf, desync, protoconfs, breq, seenTx, nmsgs, out, sinks, alt, lastIn>>
 
 Init == /\ q = <<>> /\ hs = [vrcv |-> FALSE, vasent |-> FALSE, varcv |-> FALSE, done |-> FALSE]
         /\ hsComplete = FALSE /\ ready = FALSE /\ verified = FALSE /\ closed = FALSE
         /\ deaf = FALSE /\ desync = FALSE /\ protoconfs = 0 /\ breq = FALSE /\ seenTx = "none" /\ nmsgs = 0
-        /\ out = {"version", "ping"} /\ sinks = {} /\ lastIn = ""
+        /\ out = {"version", "ping"} /\ sinks = {} /\ alt = FALSE /\ lastIn = ""
 
 Alive == ~closed /\ ~deaf /\ ~desync
 
@@ -132,6 +134,10 @@ Recv(m) ==
                    \* consumed to the declared length, nothing else happens
                    Quiet /\ Same(<<q, ready, verified, closed, deaf, desync, protoconfs>>)
   /\ Same(<<hs, hsComplete>>)
+  \* every headers message handled after the handshake is teed to the alternate header handler, to its last byte
+  \* (the deferred discard of what the node's own handler left unread is teed as well) - as long as the node does
+  \* not close the connection under it
+  /\ alt' = (m \in HeaderMsgs \ ShortMsgs /\ hsComplete /\ ~closed')
 
 \* ---- handshake goroutine consumes one queued message
 Hs == /\ ~hs.done /\ ~closed /\ Len(q) > 0 /\ lastIn' = ""
@@ -144,7 +150,7 @@ Hs == /\ ~hs.done /\ ~closed /\ Len(q) > 0 /\ lastIn' = ""
             /\ hsComplete' = (hsComplete \/ fin)
             /\ out' = (IF m = "version" /\ ~hs.vasent THEN {"verack"} ELSE {})
                       \cup (IF fin THEN {"protoconf", "getheadersVerify"} ELSE {})
-      /\ sinks' = {}
+      /\ sinks' = {} /\ alt' = FALSE
       /\ Same(<<ready, verified, closed, deaf, desync, protoconfs, breq, seenTx, nmsgs>>)
 
 Next == (\E m \in Msgs : Recv(m)) \/ Hs
